@@ -22,7 +22,7 @@ ASSUMPTIONS = ['the generator is a pure function of the case once both global RN
 
 
 def budget(tier):
-    return 3000 if tier == 'quick' else 60000
+    return 8000 if tier == 'quick' else 80000
 
 
 @st.composite
